@@ -144,6 +144,7 @@ fn main() {
             };
             vmon::live_router::run(&prop, seed, &w)
         }
+        "c03-h2" => vmon::c03h2::run(seed, if quick { 400 } else { 20_000 }),
         "c05-live" => vmon::live_router::run_header_policy(seed, if quick { 8 } else { 120 }),
         "c10-invalid" => {
             let (threads, per) = if quick { (8, 500) } else { (16, 20_000) };
